@@ -619,7 +619,9 @@ func rMsgs(r *tr) []*rwp.InboundMessage {
 
 type convInExec struct{}
 
-func (e *convInExec) Exec(cmd string, a []string) string {
+func (e *convInExec) Exec(cmd string, a []string) string { return withDebugVariant(cmd, a, e.exec1) }
+
+func (e *convInExec) exec1(cmd string, a []string) string {
 	res := ""
 	p := guarded(func() {
 		switch cmd {
